@@ -98,6 +98,10 @@ class Tolerancing:
     def apply_compensators(self):
         """Apply compensators to the optic."""
         result = {}
+        # pickups and solves follow the perturbed values (with compensators
+        # the optimiser does this on every evaluation; without compensators
+        # nothing else would)
+        self.optic.update()
         if self.compensator.has_variables:
             # add operands to the optimization problem (for compensation)
             self.compensator.operands = self.operands
